@@ -154,6 +154,14 @@ func buildScenario(seed int64, mode string, idx int, thorough bool) *scenCase {
 			switch {
 			case r >= 90 && (proto == "ipfix" || proto == "nf9"):
 				feed(e, tr.DataMixed(e, id+1, k%2 == 0), "data mixed with a set of an unknown template", phase)
+			case r >= 76 && r < 80 && proto == "ipfix":
+				// nothing but a message header, whose Length field announces up to a full buffer of sets that never came
+				h := make([]byte, 16)
+				h[1] = 10
+				l := 16 + 4*g.Range(10, (size-16)/4)
+				h[2], h[3] = byte(l>>8), byte(l)
+				h[8], h[9], h[10], h[11] = byte((id+1)>>24), byte((id+1)>>16), byte((id+1)>>8), byte(id+1)
+				feed(e, h, "a bare message header announcing more octets than were received", phase)
 			case r >= 80:
 				// the tail is missing: whatever the decoder makes of the rest (records, a partial sFlow sample with a
 				// short sampled header) must still depend on this datagram alone
@@ -348,6 +356,11 @@ func main() {
 		pipeMain(args, "C13", "account")
 	case "C05":
 		pipeMain(args, "C05", "json")
+	case "C02":
+		// pipeline tier of C02: what the worker does for a datagram is bounded by, and determined by, the octets that
+		// were received - not by a length field that announces more (the receive buffers are recycled and still
+		// hold older datagrams behind the received octets)
+		pipeMain(args, "C02", "alias")
 	case "C03", "C06", "C07", "C08":
 		// pipeline tier of a decoding property: the alias scenarios of its own protocol only
 		protoOnly = map[string]string{"C03": "ipfix", "C06": "nf9", "C07": "sflow", "C08": "nf5"}[args.Prop]
@@ -570,6 +583,9 @@ func pipeMain(args mon.Args, prop, mode string) {
 		if protoOnly != "" {
 			nPlain, nRace = run.Pick(9, 120), run.Pick(2, 30)
 		}
+		if prop == "C02" {
+			nPlain, nRace = run.Pick(16, 200), run.Pick(0, 20)
+		}
 		for i := 0; i < nPlain; i++ {
 			jobs = append(jobs, job{i, false})
 		}
@@ -671,6 +687,8 @@ func pipeMain(args mon.Args, prop, mode string) {
 	run.Set("race_reports_by_frames", raceEntries)
 	if mode == "json" {
 		run.SetRule("pipeline tier of C05: the C12 scenarios with hostile field contents (strings with quotes/backslashes/control/non-UTF-8 octets, NaN/Inf floats, booleans, MAC addresses forced into every template) through the real worker goroutines; every payload taken from the message-queue channel must be a valid JSON document and byte-identical to the stand-alone library encoding that the first tier validated member by member. distinct = scenario configuration")
+	} else if mode == "alias" && prop == "C02" {
+		run.SetRule("pipeline tier of C02: the C12 scenarios (alternating maximum-size and tiny datagrams through recycled receive buffers; a tenth of the datagrams cut short at the tail, bare IPFIX message headers whose Length field announces up to a buffer of sets): whatever the worker publishes for a datagram must be what the received octets alone decode to - a message built from octets that were not received is work and output not bounded by the datagram. distinct = scenario configuration")
 	} else if mode == "alias" && protoOnly != "" {
 		run.SetRule("pipeline tier of " + prop + ": the C12 scenarios restricted to " + protoOnly + " - what the real worker goroutine publishes for a datagram (decode + JSON encoding + hand-over to the queue, with bursts queued behind a consumer that drains only at barriers) must be byte-for-byte the stand-alone library decode and encoding that the first tier validates field by field. distinct = scenario configuration")
 	} else if mode == "alias" {
@@ -685,7 +703,7 @@ func pipeMain(args mon.Args, prop, mode string) {
 // aliasLike: properties judged by "what is published equals the stand-alone decode, byte for byte".
 func aliasLike(prop string) bool {
 	switch prop {
-	case "C12", "C05", "C03", "C06", "C07", "C08":
+	case "C12", "C05", "C03", "C06", "C07", "C08", "C02":
 		return true
 	}
 	return false
